@@ -257,6 +257,9 @@ def run(R, tier):
         bad = ["%r: yields %s, the text denotes %s" % (t, g, e) for t, g, e in rows if g != e]
         R.check(rows and not bad, "R19.11", "entries:" + label, "entries and the position of the first error as denoted by the text (%d lists)" % len(rows), "; ".join(bad[:3]))
 
+    # ---- R19.12 typed echo tables: lists iterated by a handler, end to end -----------------------------------------------------------
+    from . import echotable as ET
+    ET.check(R, "R19.12", "lists", tier, "`*NLIST? (...)` and `*CLIST? (@...)` through Node::run on the echo witness (the handler iterates the list, converts every number / two-dimensional spec and answers count and an order-sensitive checksum): entries, ranges with both ends, order; separators missing, doubled, leading; wrong dimension counts; numbers the target cannot hold", 40)
 
 def _pos_at_call(r, short):
     for e in r.trace:
